@@ -13,6 +13,7 @@
 package main
 
 import (
+	"encoding/binary"
 	"encoding/json"
 	"flag"
 	"fmt"
@@ -51,6 +52,7 @@ var props = map[string]propConf{
 	"C08": {Engine: "E1", QuickBudget: 12, ThorBudget: 600},
 	"C10": {Engine: "E1+E2", QuickBudget: 15, ThorBudget: 600},
 	"C11": {Engine: "E1", QuickBudget: 12, ThorBudget: 600},
+	"C20": {Engine: "E3", Bubble: true, QuickBudget: 15, ThorBudget: 600},
 	"C18": {Engine: "E3", Bubble: true, QuickBudget: 15, ThorBudget: 600},
 	"C17": {Engine: "E4", QuickBudget: 15, ThorBudget: 600},
 	"C16": {Engine: "E1", QuickBudget: 12, ThorBudget: 600},
@@ -245,8 +247,12 @@ func cmdReplay(args []string) int {
 	b := build(pc)
 	defer b.cleanup()
 	cmd := workerCmd(b, pc, "-replay", path)
-	cmd.Stdout, cmd.Stderr = os.Stdout, os.Stderr
-	err = cmd.Run()
+	out, err := cmd.CombinedOutput()
+	fmt.Print(string(out))
+	if strings.Contains(string(out), "fatal error:") {
+		fmt.Printf("VIOLATION property=%s replay=%s\n", c.Property, path)
+		return 1
+	}
 	if ee, ok := err.(*exec.ExitError); ok {
 		return ee.ExitCode()
 	} else if err != nil {
@@ -315,20 +321,30 @@ func cmdCheck(args []string) int {
 	var wg sync.WaitGroup
 	sums := make([]*summary, *workers)
 	errs := make([]string, *workers)
+	fatals := make([]*violationRec, *workers)
 	for w := 0; w < *workers; w++ {
 		wg.Add(1)
 		go func(w int) {
 			defer wg.Done()
 			out := filepath.Join(b.scratch, fmt.Sprintf("sum-%d.json", w))
+			progress := filepath.Join(b.scratch, fmt.Sprintf("progress-%d", w))
 			cmd := workerCmd(b, pc, "-prop", id, "-tier", *tier, "-seed", fmt.Sprint(seed), "-worker", fmt.Sprint(w),
 				"-workers", fmt.Sprint(*workers), "-runs", fmt.Sprint(*runs), "-budget", fmt.Sprint(*budget),
-				"-out", out, "-replaydir", replayDir, "-tree", b.tree, "-known", strings.Join(openKeys, ","))
+				"-out", out, "-replaydir", replayDir, "-tree", b.tree, "-known", strings.Join(openKeys, ","), "-progress", progress)
 			if pc.Race {
 				cmd.Env = append(cmd.Env, "GORACE=halt_on_error=0 log_path="+filepath.Join(b.scratch, fmt.Sprintf("race-%d", w)))
 			}
 			stderr, err := cmd.CombinedOutput()
 			raw, rerr := os.ReadFile(out)
 			if rerr != nil {
+				// A Go runtime fatal error (concurrent map access, ...) inside the code under test kills the
+				// worker without a summary: that is a finding about the run in flight, not an infrastructure problem.
+				if i := strings.Index(string(stderr), "fatal error:"); i >= 0 && err != nil {
+					if v := postMortem(b, pc, id, *tier, seed, progress, string(stderr)[i:], replayDir); v != nil {
+						fatals[w] = v
+						return
+					}
+				}
 				errs[w] = fmt.Sprintf("worker %d produced no summary (%v): %s", w, err, tail(string(stderr), 2000))
 				return
 			}
@@ -350,7 +366,48 @@ func cmdCheck(args []string) int {
 			return 2
 		}
 	}
+	for w, v := range fatals {
+		if v != nil {
+			if sums[w] == nil {
+				sums[w] = &summary{Probes: map[string]int{}, Faults: map[string]int{}}
+			}
+			sums[w].Violations = append(sums[w].Violations, *v)
+		}
+	}
 	return report(id, *tier, seed, pc, sums, b, time.Since(start).Seconds())
+}
+
+// postMortem regenerates the case that was in flight when a worker died of a runtime fatal error and
+// writes it as a replay file.
+func postMortem(b *built, pc propConf, id, tier string, seed uint64, progress, msg, replayDir string) *violationRec {
+	raw, err := os.ReadFile(progress)
+	if err != nil || len(raw) < 8 {
+		return nil
+	}
+	idx := int(binary.LittleEndian.Uint64(raw[:8]))
+	casePath := filepath.Join(replayDir, fmt.Sprintf("%s-%d-%d.json", id, seed, idx))
+	cmd := workerCmd(b, pc, "-prop", id, "-tier", tier, "-seed", fmt.Sprint(seed), "-gen", fmt.Sprint(idx), "-out", casePath)
+	if out, err := cmd.CombinedOutput(); err != nil {
+		fmt.Fprintln(os.Stderr, "vsim: cannot regenerate the case in flight:", err, string(out))
+		return nil
+	}
+	var c map[string]any
+	js, _ := os.ReadFile(casePath)
+	if json.Unmarshal(js, &c) != nil {
+		return nil
+	}
+	first := msg
+	if i := strings.Index(first, "\n\n"); i > 0 {
+		first = first[:i]
+	}
+	if len(first) > 600 {
+		first = first[:600]
+	}
+	c["violation"] = map[string]any{"invariant": id + ".runtime-fatal-error", "message": first, "step": 0}
+	c["flaky"] = "the Go runtime aborted the process during this run; whether it recurs depends on real goroutine timing the simulator does not own"
+	js, _ = json.MarshalIndent(c, "", " ")
+	_ = os.WriteFile(casePath, js, 0o644)
+	return &violationRec{Run: idx, Inv: id + ".runtime-fatal-error", Msg: first, Replay: casePath}
 }
 
 func tail(s string, n int) string {
